@@ -364,6 +364,46 @@ Proof.
   destruct Cs as [Cs|Cs]; rewrite Cs in Hq; cbn in Hq; [discriminate | rewrite andb_false_r in Hq; discriminate].
 Qed.
 
+(* ---------------- genesis export / import ---------------- *)
+
+Lemma In_all_recs_k : forall s a r, keys_inv s -> recs s a = Some r -> In r (all_recs s).
+Proof. intros s a r K Hr. eapply In_all_recs; eauto. Qed.
+
+(* export + import gives back exactly the registry that was there (ExportGenesis exporting every record) *)
+Theorem export_import_preserves_registry : Gen_OracleSlash.export_all_oracles = true ->
+  forall s s', idx_inv s -> keys_inv s -> export_import s = Ok s' ->
+  (forall a, recs s' a = recs s a) /\
+  (forall b, by_bridger s' b = by_bridger s b) /\
+  (forall e, by_ext s' e = by_ext s e) /\
+  proposal s' = proposal s /\ prm s' = prm s /\ deleg s' = deleg s /\ ubds s' = ubds s /\
+  bal_o s' = bal_o s /\ bal_d s' = bal_d s /\ burned s' = burned s /\ gov_und s' = gov_und s /\ vals s' = vals s.
+Proof.
+  intros F s s' I K H. destruct (export_import_registry _ _ I H) as (_ & R & B & E).
+  assert (EX : forall r, In r (exported s) <-> In r (all_recs s)) by (intro r; unfold exported; rewrite F; tauto).
+  pose proof I as (I1 & I2 & I3).
+  assert (RS : forall a, recs s' a = recs s a).
+  { intros a. destruct (recs s a) as [r|] eqn:Hr.
+    - apply R. split; [apply EX; eapply In_all_recs_k; eauto | apply (I1 _ _ Hr)].
+    - destruct (recs s' a) as [r'|] eqn:Hr'; auto. exfalso.
+      pose proof (export_import_recs_sub _ _ _ _ I H Hr'). congruence. }
+  split; [exact RS|]. split; [|split].
+  - intros b. destruct (by_bridger s b) as [a|] eqn:Hb.
+    + destruct (I2 _ _ Hb) as (r & Hr & Hbr). apply B. exists r. repeat split; auto.
+      * apply EX. eapply (In_all_recs_k s); eauto.
+      * apply (I1 _ _ Hr).
+    + destruct (by_bridger s' b) as [a|] eqn:Hb'; auto. exfalso.
+      apply B in Hb'. destruct Hb' as (r & Hr & Hbr & Ha). apply EX, all_recs_In in Hr. destruct Hr as (a' & _ & Hr).
+      destruct (I1 _ _ Hr) as (_ & X & _). congruence.
+  - intros e. destruct (by_ext s e) as [a|] eqn:He.
+    + destruct (I3 _ _ He) as (r & Hr & Her). apply E. exists r. repeat split; auto.
+      * apply EX. eapply (In_all_recs_k s); eauto.
+      * apply (I1 _ _ Hr).
+    + destruct (by_ext s' e) as [a|] eqn:He'; auto. exfalso.
+      apply E in He'. destruct He' as (r & Hr & Her & Ha). apply EX, all_recs_In in Hr. destruct Hr as (a' & _ & Hr).
+      destruct (I1 _ _ Hr) as (_ & _ & X). congruence.
+  - unfold export_import in H. inversion H; subst; clear H. unfold_power. repeat split; reflexivity.
+Qed.
+
 (* ---------------- all operations without a staking slash ---------------- *)
 
 (* the operations under which validators keep the rate 1 share = 1 token: everything except a staking slash
@@ -372,6 +412,7 @@ Definition calm (o : op) : Prop :=
   match o with
   | SlashVal _ _ => False
   | EnvVal _ tok shr => shr = tok * dec_one
+  | ExportImport => Gen_OracleSlash.export_all_oracles = true
   | _ => True
   end.
 
@@ -414,6 +455,10 @@ Proof.
   - contradiction.
   - cbn in Co. subst shr. unfold env_val in H. inversion H; subst; clear H. destruct ST as (R & ST).
     split; [unfold rate1, set_vals_deleg; proj; apply rate1V_set; exact R | exact ST].
+  - unfold exec_batch in H. guards H. inversion H; subst. eapply sinv_frame; eauto.
+  - cbn in Co. destruct (export_import_preserves_registry Co _ _ I K H) as (RS & _ & _ & HP & _ & HD & _ & _ & _ & _ & HG & HV).
+    destruct ST as (R & S1 & S2 & S3 & S4). split; [unfold rate1; rewrite HV; exact R|].
+    unfold stake_inv. rewrite HD, HG, HP. repeat split; intros; rewrite RS in *; eauto.
   - eapply end_block_stake; eauto.
 Qed.
 
